@@ -44,6 +44,7 @@ fn main() {
     let seed: u64 = args.get(3).and_then(|s| s.parse().ok()).unwrap_or(1);
     let mut s = seed.wrapping_mul(6364136223846793005).wrapping_add(1442695040888963407) | 1;
     let mut rnd = move || { s ^= s << 13; s ^= s >> 7; s ^= s << 17; s };
+    let mut last_scen = String::new();
     for it in 0..count {
         // ---- scenario
         let nmod = 2 + (rnd() % 7) as usize;
@@ -70,6 +71,7 @@ fn main() {
         }
         let lonely: Vec<usize> = (0..nmod).filter(|_| rnd() % 5 == 0).collect();
         let scen = format!("modules={:?} chains={:?} unconnected_gates_on={:?}", paths, chains.iter().map(|c| c.gates.iter().map(|(o, g)| format!("{}:{}", paths[*o], g)).collect::<Vec<_>>()).collect::<Vec<_>>(), lonely);
+        last_scen = scen.clone();
         // ---- build on the real crate
         let mut sim = Sim::new(());
         for p in paths.iter() { sim.node(p.as_str(), M); }
@@ -201,5 +203,5 @@ fn main() {
         drop(topo);
         drop(sim);
     }
-    println!("{{\"mismatch\":false,\"scenarios\":{},\"other\":\"\"}}", count);
+    println!("{{\"mismatch\":false,\"scenarios\":{},\"other\":\"\",\"sample\":\"{}\"}}", count, last_scen.replace('"', "'"));
 }
